@@ -203,3 +203,13 @@ def check(chk):
         bad = sorted('%s=%s (want %s)' % (p_, got.get(p_), w) for p_, w in carried.items() if p_ in iparams and w in fparams and got.get(p_) != w)
         chk.judge(not bad, 'C19.carry', c, 'from_message -> PreparedStatement(...): keyspace / query / ids / metadata passed through',
                   'this arm builds the statement with %s: a later re-prepare after UNPREPARED is sent without what the statement was prepared with' % '; '.join(bad))
+    # what a PreparedStatement remembers as its keyspace is what the PREPARE request named - whatever the session keyspace is now or will be later
+    chk.rule('C19.remember', 'Session.prepare records the keyspace argument of the PREPARE (or None) in the PreparedStatement, independent of the session keyspace')
+    from ..sem import resolve as _res19
+    sp_ = cl.func('Session.prepare')
+    pk_ = [st_ for st_ in body_walk(sp_) if isinstance(st_, ast.Assign) and src(st_.targets[0]) == 'prepared_keyspace']
+    okp_ = len(pk_) == 1 and set(x_.id for x_ in ast.walk(_res19(sp_, pk_[0].value)) if isinstance(x_, ast.Name)) <= set(['keyspace']) and \
+        not any(isinstance(x_, ast.Attribute) for x_ in ast.walk(pk_[0].value))
+    chk.judge(okp_, 'C19.remember', pk_[0] if pk_ else sp_, 'prepared_keyspace depends on the keyspace argument only',
+              'the recorded keyspace also depends on %s: a statement prepared with the session\'s current keyspace named explicitly forgets it, and after a later USE the re-PREPARE goes out '
+              'without it - the node returns another id and the request fails with "ID mismatch"' % sorted(set(src(x_) for st_ in pk_ for x_ in ast.walk(st_.value) if isinstance(x_, ast.Attribute))))
